@@ -7,7 +7,7 @@ VERIF = os.path.dirname(os.path.dirname(os.path.abspath(__file__)))
 
 IMPLEMENTED = ["C01", "C02", "C03", "C04", "C05", "C06", "C07", "C08", "C09", "C10", "C11", "C12", "C13", "C14", "C15", "C16", "C18", "C20"]
 
-HOOK_COMMITS = ["8829da3"]
+HOOK_COMMITS = ["8829da3", "5264966"]
 
 CHECKS = {
  "C01": dict(level="exploration", design="DESIGN.md §4 C01",
